@@ -327,33 +327,42 @@ class Real:
 
 # ---------------------------------------------------------------- TLC
 
-def run_tlc(ctx, consts, nparts, label, workers=1):
+JVM = {'_JAVA_OPTIONS': '-Xmx4g'}     # the case spaces are small; keep several emission runs side by side in memory
+
+
+def iter_tlc(ctx, ex, consts, nparts, label):
+    """one emission run (single worker) per partition, several side by side; yields (partition, cases) in order, so that
+    the real code is driven with one partition while TLC still enumerates the next ones"""
     def one(part):
         k = dict(consts, PART=part, NPARTS=nparts)
         cfg = tlc.make_cfg(constants=k, invariants=INVS, constraint='Emit')
-        return tlc.run('Script', cfg, ctx, workers=workers, coverage=False, timeout=3000, label=f'{label}-p{part}')
-    with ThreadPoolExecutor(max_workers=nparts) as ex:
-        results = list(ex.map(one, range(nparts)))
-    cases = []
-    for part, res in enumerate(results):
+        res = tlc.run('Script', cfg, ctx, workers=1, coverage=False, timeout=3000, label=f'{label}-p{part}', env=JVM)
+        got = None
+        if res.finished and not res.violated:
+            got = tlc.printed_json(res, 'CASE')
+        res.out = ''
+        res.printed = []
+        return res, got
+    futs = [ex.submit(one, part) for part in range(nparts)]
+    for part, fut in enumerate(futs):
+        res, got = fut.result()
         ctx.add_tlc(res, f'Script.tla case space {consts}, partition {part}/{nparts} (Leg A invariants + emission)')
         if res.violated:
             ctx.violation('model:' + ','.join(sorted(set(res.violated))), 'specification law violated in the model',
                           res.error_trace[:6000])
-            return None
-        got = tlc.printed_json(res, 'CASE')
+            yield part, None
+            return
+        if got is None:
+            raise MachineryError(f'{label} partition {part}: TLC did not finish (rc={res.rc})')
         if len(got) != res.distinct:
             raise MachineryError(f'{label} partition {part}: {len(got)} distinct cases emitted, TLC found {res.distinct} distinct states')
-        cases += got           # partitions are disjoint by construction (the case key decides the partition)
-        res.out = ''
-        res.printed = []
-    return cases
+        yield part, got
 
 
 def run_witnesses(ctx):
     consts = {'MAXLEN': 1, 'EDITS': 1, 'BYTELEN': 0, 'FULLGEN': False, 'EMIT': False, 'PART': 0, 'NPARTS': 1}
     cfg = tlc.make_cfg(constants=consts, invariants=WITNESSES)
-    res = tlc.run('Script', cfg, ctx, workers=4, coverage=False, timeout=600, label='Script-witness', cont=True)
+    res = tlc.run('Script', cfg, ctx, workers=2, coverage=False, timeout=600, label='Script-witness', cont=True, env=JVM)
     missing = [w for w in WITNESSES if w not in res.violated]
     if missing:
         raise MachineryError(f'vacuous laws: witnesses not reached: {missing}')
@@ -376,8 +385,8 @@ class Judge:
         ctx, real, spec = self.ctx, self.real, self.spec
         rp = real.parse(mode, src)
         got = rp['name']
-        replay = dict(replay, mode=mode, source=src.hex() if len(src) <= 400 else src[:400].hex() + '...', expected=exp['name'], got=got,
-                      exception=rp['exc'])
+        replay = dict(replay, mode=mode, source=src.hex() if len(src) <= 5000 else None, expected=exp['name'], got=got,
+                      exception=rp['exc'], tier=ctx.tier)
         if got == 'hang':
             ctx.violation(f'hang:{mode}', f'parser did not return for {src[:40].hex()}', replay)
             return
@@ -389,7 +398,7 @@ class Judge:
         if mode == 'out':
             self.classes_seen.add(exp['class'])
         if exp.get('tr') and got == 'none':
-            self.n['truncation_rejected'] += 1      # the expectation rests on a truncation quirk; refusing the script is also right
+            self.n['truncation_rejected'] += exp['name'] != 'none'   # the expectation rests on a truncation quirk; refusing is also right
             return
         if got != exp['name']:
             first = src[0] if src else -1
@@ -553,65 +562,39 @@ def random_sources(rng, n, instances):
 
 # ---------------------------------------------------------------- run
 
-def run(ctx):
-    thorough = ctx.thorough
-    consts = {'MAXLEN': 4, 'EDITS': 2 if thorough else 1, 'BYTELEN': 4 if thorough else 3, 'FULLGEN': bool(thorough), 'EMIT': True}
-    nparts = 12 if thorough else 6
-    if ctx.replay:
-        consts = {'MAXLEN': 0, 'EDITS': 1, 'BYTELEN': 0, 'FULLGEN': False, 'EMIT': True}
-        nparts = 1
-    with ThreadPoolExecutor(max_workers=1) as side:
-        wit = side.submit(run_witnesses, ctx)
-        cases = run_tlc(ctx, consts, nparts, 'Script-emit')
-        ctx.add_tlc(wit.result(), 'Script.tla reachability witnesses for the antecedents of the laws (each must be violated)')
-    if cases is None:
-        return
+def drive(ctx, real, state, part, cases):
+    """evaluate the cases of one partition on the real code; partition 0 carries the tables"""
     by = {}
     for c in cases:
         by.setdefault(c['kind'], []).append(c)
-    tpls = sorted(by.get('tpl', []), key=lambda t: t['idx'])
-    syms = {s['idx']: s for s in by.get('sym', [])}
-    if len(tpls) != 19 or len(syms) != 24:
-        raise MachineryError(f'template / symbol tables incomplete: {len(tpls)} templates, {len(syms)} symbols')
-    spec = Spec(tpls)
-    real = Real()
-    preds = {t['name']: t['preds'] for t in tpls if t['table'] == 'out'}
-    J = Judge(ctx, spec, real, preds)
-    missing = [t['name'] for t in tpls if t['name'] not in real.tpl]
-    if missing:
-        # a template of the specification that the code no longer has: its generate cases cannot be driven
-        ctx.violation('template-missing:' + missing[0], f'templates {missing} do not exist in the code', {'missing': missing})
-        return
-
-    if ctx.replay:
-        return replay(ctx, spec, J)
+    if part == 0:
+        tpls = sorted(by.get('tpl', []), key=lambda t: t['idx'])
+        syms = {s['idx']: s for s in by.get('sym', [])}
+        if len(tpls) != 19 or len(syms) != 26:
+            raise MachineryError(f'template / symbol tables incomplete: {len(tpls)} templates, {len(syms)} symbols')
+        state['spec'] = spec = Spec(tpls)
+        preds = {t['name']: t['preds'] for t in tpls if t['table'] == 'out'}
+        state['J'] = J = Judge(ctx, spec, real, preds)
+        state['symtok'] = {i: (s['tok']['k'], s['tok']['v'], s['tok']['pl'], s['lay']) for i, s in syms.items()}
+        missing = [t['name'] for t in tpls if t['name'] not in real.tpl]
+        if missing:
+            # a template of the specification that the code no longer has: its generate cases cannot be driven
+            ctx.violation('template-missing:' + missing[0], f'templates {missing} do not exist in the code', {'missing': missing})
+            return False
+        if ctx.replay:
+            replay(ctx, state, by)
+            return False
+    spec, J, symtok, instances = state['spec'], state['J'], state['symtok'], state['instances']
 
     # ---- (i) push prefixes
     for c in by.get('push', []):
-        n = c['n']
-        data = fill('x', n, 0)
-        J.n['push'] += 1
-        ctx.count(('push', n), nontrivial=True)
-        got = b''.join(real.S.push_data(data))
-        want = bytes(c['prefix']) + data
-        if got != want:
-            ctx.violation(f'push-prefix:len={n}', f'push_data of {n} bytes starts {got[:6].hex()}, the minimal encoding is {bytes(c["prefix"]).hex()}',
-                          {'len': n, 'got': got[:8].hex(), 'want': bytes(c['prefix']).hex()})
-            continue
-        st, toks = real.tokens('out', got)
-        wtok = [('op', 0, b'')] if n == 0 else [('data', 0, data)]
-        if st != 'ok' or toks != wtok:
-            ctx.violation(f'push-readback:len={n}', f'a minimal push of {n} bytes tokenises as {st} {[(k, v, len(p)) for k, v, p in toks]}',
-                          {'len': n, 'source': got[:8].hex()})
+        push_case(ctx, J, real, c)
 
     # ---- (i) generate / parse back
-    instances = []
     for c in by.get('gen', []):
         gen_case(ctx, J, spec, real, c, instances)
 
     # ---- (ii) token sequences
-    symtok = {i: (s['tok']['k'], s['tok']['v'], s['tok']['pl'], s['lay']) for i, s in syms.items()}
-    nseq = 0
     for c in by.get('seq', []):
         parts, toks = [], []
         for pos, si in enumerate(c['syms'], 1):
@@ -625,11 +608,11 @@ def run(ctx):
             exp['inner'] = {'known': True, 'name': c['inner']['name'],
                             'vals': inner_values(spec, c['inner'], c['syms'], c['bind'])}
         exp['purchase_decodable'] = any(f == 'data' and si == 18 for f, si in zip(c['bind'], c['syms']))
-        nseq += 1
+        state['nseq'] += 1
         J.n['seq'] += 1
         ctx.count(('seq', c['mode'], tuple(c['syms'])), nontrivial=len(c['syms']) >= 2)
         J.judge('seq', c['mode'], src, exp, {'kind': 'seq', 'syms': c['syms']})
-        if c['name'] not in ('none', 'no_script') and len(ctx.cov['samples']) < 4 and nseq % 97 == 0:
+        if c['name'] not in ('none', 'no_script') and len(ctx.cov['samples']) < 4 and state['nseq'] % 97 == 0:
             ctx.sample({'tokens': c['syms'], 'mode': c['mode'], 'source': src.hex()[:160], 'spec_template': c['name'], 'spec_class': c['class']})
         if c['name'] != 'none' and c['mode'] == 'out' and len(src) < 120:
             instances.append(src)
@@ -645,13 +628,46 @@ def run(ctx):
         rst, rtoks = real.tokens(c['mode'], src)
         J.n['truncation_cases'] += bool(c['tr'])
         if c['tr'] and rst != 'ok':
-            J.n['truncation_rejected'] += 1        # a reader that refuses truncated pushes is within the property
+            J.n['truncation_rejected'] += c['st'] == 'ok'       # a reader that refuses truncated pushes is within the property
             continue
         if rst != c['st'] or (rst == 'ok' and rtoks != toks):
             ctx.violation(tok_key(c['st'], toks, rst, rtoks), f'{src.hex()} tokenises as {rst} {[(k, v, p.hex()) for k, v, p in rtoks]}; '
                           f'the specification says {c["st"]} {[(k, v, p.hex()) for k, v, p in toks]}', {'kind': 'bytes', 'mode': c['mode'], 'source': src.hex()})
             continue
         J.judge('bytes', c['mode'], src, exp, {'kind': 'bytes'})
+
+    return True
+
+
+def run(ctx):
+    thorough = ctx.thorough
+    consts = {'MAXLEN': 4, 'EDITS': 2 if thorough else 1, 'BYTELEN': 4 if thorough else 3, 'FULLGEN': bool(thorough), 'EMIT': True}
+    nparts, side_by_side = (16, 6) if thorough else (6, 6)
+    if ctx.replay:
+        import json
+        with open(ctx.replay) as f:
+            rep = json.load(f).get('replay') or {}
+        if not isinstance(rep, dict) or 'kind' not in rep:
+            raise MachineryError('not a C15 case replay file (a model counterexample is replayed by running the tier again)')
+        consts = {'MAXLEN': 0, 'EDITS': 1, 'BYTELEN': 0, 'FULLGEN': rep['kind'] == 'gen' and rep.get('tier') == 'thorough', 'EMIT': True}
+        nparts = 1
+    real = Real()
+    st = {'spec': None, 'J': None, 'symtok': None, 'instances': [], 'nseq': 0, 'replay': rep if ctx.replay else None}
+    with ThreadPoolExecutor(max_workers=side_by_side + 1) as ex:
+        wit = ex.submit(run_witnesses, ctx)
+        try:
+            for part, cases in iter_tlc(ctx, ex, consts, nparts, 'Script-emit'):
+                if cases is None:
+                    return
+                if not drive(ctx, real, st, part, cases):
+                    return
+        finally:
+            ex.shutdown(wait=True, cancel_futures=True)
+        ctx.add_tlc(wit.result(), 'Script.tla reachability witnesses for the antecedents of the laws (each must be violated)')
+    if ctx.replay:
+        return
+    spec, J, instances = st['spec'], st['J'], st['instances']
+    tpls = list(spec.by_name.values())
 
     # ---- coverage guards (vacuity): every template in the claim and every class was expected somewhere
     want_names = {t['name'] for t in tpls if not t['outside']} | {'none', 'no_script'}
@@ -679,7 +695,7 @@ def run(ctx):
             rst, rtoks = real.tokens(mode, src)
             J.n['truncation_cases'] += bool(j['tr'])
             if j['tr'] and rst != 'ok':
-                J.n['truncation_rejected'] += 1
+                J.n['truncation_rejected'] += j['st'] == 'ok'
                 continue
             if rst != j['st'] or (rst == 'ok' and rtoks != [(k, v, bytes(p)) for k, v, p in j['toks']]):
                 ctx.violation(tok_key(j['st'], j['toks'], rst, rtoks), f'{src.hex()} tokenises as {rst}; the specification says {j["st"]}',
@@ -688,14 +704,14 @@ def run(ctx):
             J.judge('random', mode, src, dict(j, inner=None), {'kind': 'random', 'style': style})
     ctx.leg('B', push_cases=J.n['push'], gen_cases=J.n['gen'], seq_cases=J.n['seq'], byte_cases=J.n['bytes'], random_strings=J.n['random'],
             outside_claim_not_judged=J.n['outside_claim'], txo_rows_checked=J.n['rows'], txo_row_exceptions_not_judged=J.n['row_exceptions'], txo_row_exception_types=J.row_exc,
-            inner_scripts_checked=J.n['inner'], truncated_scripts=J.n['truncation_cases'], truncated_scripts_refused_by_code=J.n['truncation_rejected'], safety_antecedents=J.n['safety_antecedents'],
+            inner_scripts_checked=J.n['inner'], truncated_scripts=J.n['truncation_cases'], truncated_scripts_refused_where_the_quirk_would_accept=J.n['truncation_rejected'], safety_antecedents=J.n['safety_antecedents'],
             random_by_spec_template=dict(sorted(kinds.items(), key=lambda kv: -kv[1])[:12]), constants=consts)
     ctx.cov['traces_validated_against_impl'] = J.n['push'] + J.n['gen'] + J.n['seq'] + J.n['bytes']
     ctx.cov['exhaustive'] = True
     ctx.cov['rule'] = ('every TLC state of Script.tla is one case evaluated on the real code: push = one payload length; gen = template x '
                        'value lengths at {0,1,75,76,255,256,65535,65536,70000} (one field varied against typical lengths, all fields equal; '
                        'thorough: full cross product) x lock heights of every byte width; seq = ALL token sequences up to length 4 over the '
-                       "mode's alphabet (19 symbols for output scripts) plus every sequence within EDITS token edits over the 24-symbol alphabet "
+                       "mode's alphabet (19 symbols for output scripts) plus every sequence within EDITS token edits over the 26-symbol alphabet "
                        'of an instance of each of the 13 output, 4 input and the time-lock template; bytes = all byte strings up to BYTELEN over '
                        'a 22-byte alphabet plus one byte edit of a small instance of every output template. Random strings are extra and '
                        'judged by the transcription of the specification (which must agree with TLC on every emitted case). '
@@ -735,6 +751,24 @@ def inner_values(spec, inner, syms, bind):
     return vals
 
 
+def push_case(ctx, J, real, c):
+    n = c['n']
+    data = fill('x', n, 0)
+    J.n['push'] += 1
+    ctx.count(('push', n), nontrivial=True)
+    got = b''.join(real.S.push_data(data))
+    want = bytes(c['prefix']) + data
+    if got != want:
+        ctx.violation(f'push-prefix:len={n}', f'push_data of {n} bytes starts {got[:6].hex()}, the minimal encoding is {bytes(c["prefix"]).hex()}',
+                      {'kind': 'push', 'n': n, 'got': got[:8].hex(), 'want': bytes(c['prefix']).hex()})
+        return
+    st, toks = real.tokens('out', got)
+    wtok = [('op', 0, b'')] if n == 0 else [('data', 0, data)]
+    if st != 'ok' or toks != wtok:
+        ctx.violation(f'push-readback:len={n}', f'a minimal push of {n} bytes tokenises as {st} {[(k, v, len(p)) for k, v, p in toks]}',
+                      {'kind': 'push', 'n': n, 'got': got[:8].hex()})
+
+
 def gen_case(ctx, J, spec, real, c, instances):
     S = real.S
     t = spec.by_name[c['tpl']]
@@ -760,7 +794,7 @@ def gen_case(ctx, J, spec, real, c, instances):
     ctx.count(key, nontrivial=True)
     want = concretise(c['lay'], 0)
     cls = real.cls('out' if c['mode'] == 'out' else 'in')
-    replay = {'kind': 'gen', 'tpl': c['tpl'], 'vals': c['vals']}
+    replay = {'kind': 'gen', 'tpl': c['tpl'], 'vals': c['vals'], 'tier': ctx.tier}
     try:
         with watchdog(20):
             values = build(c['tpl'], fields, c['vals'])
@@ -843,22 +877,36 @@ def gen_case(ctx, J, spec, real, c, instances):
                     'parsed_back': rp['name']})
 
 
-def replay(ctx, spec, J):
-    import json
-    with open(ctx.replay) as f:
-        rep = json.load(f)['replay'] or {}
-    src_hex = rep.get('source', '')
-    if not src_hex or src_hex.endswith('...'):
-        raise MachineryError('replay file has no complete source; re-run the tier with the same seed instead')
-    src = bytes.fromhex(src_hex)
+def replay(ctx, state, by):
+    """re-judge the one recorded case: a gen case is looked up among the cases TLC emits again (same expected layout), a token
+    sequence is rebuilt from the symbol table, everything else is a literal source judged by the transcription of Script.tla"""
+    rep, spec, J = state['replay'], state['spec'], state['J']
+    ctx.cov['rule'] = 'replay of one recorded case'
+    if rep['kind'] == 'gen':
+        for c in by.get('gen', []):
+            if c['tpl'] == rep['tpl'] and c['vals'] == rep['vals']:
+                gen_case(ctx, J, spec, J.real, c, [])
+                return
+        raise MachineryError('the recorded generate case is not in the case space TLC enumerates for its tier')
+    if rep['kind'] == 'push':
+        for c in by.get('push', []):
+            if c['n'] == rep['n']:
+                push_case(ctx, J, J.real, c)
+                return
+        raise MachineryError('the recorded push length is not in the case space')
     mode = rep.get('mode', 'out')
+    if rep.get('source') is not None:
+        src = bytes.fromhex(rep['source'])
+    elif rep['kind'] == 'seq':
+        src = b''.join(concretise(state['symtok'][si][3], pos) for pos, si in enumerate(rep['syms'], 1))
+    else:
+        raise MachineryError('replay file has no source')
     j = spec.judge(mode, src)
     ctx.count(('replay', mode, src))
     rst, rtoks = J.real.tokens(mode, src)
     if j['tr'] and rst != 'ok':
         return
     if rst != j['st'] or (rst == 'ok' and rtoks != [(k, v, bytes(p)) for k, v, p in j['toks']]):
-        ctx.violation(f'tokenise:{j["st"]}->{rst}', f'{src.hex()} tokenises as {rst}; the specification says {j["st"]}', rep)
+        ctx.violation(tok_key(j['st'], j['toks'], rst, rtoks), f'{src.hex()} tokenises as {rst}; the specification says {j["st"]}', rep)
         return
     J.judge('replay', mode, src, dict(j, inner=None), {'kind': 'replay'})
-    ctx.cov['rule'] = 'replay of one recorded source, judged by the transcription of Script.tla'
